@@ -78,7 +78,7 @@ def run(ctx):
               "sweeps, and must reproduce A, lambda and the slack bounds (1e-6); the model's loop with the code's stopping test and the same tol / max_iter must stop after the same number of sweeps; features in units 2^-10 .. 2^17 (bounds, priors scaled accordingly), tol in 1e-3 .. 1e-9; (b) exact-rational certificate on the "
               "implementation's own M and lambda: M SPD (LDL^T), lambda >= 0, M (M0^-1 + sum y_i lambda_i v_i v_i^T) = I; "
               "(c) priors that satisfy all bounds are returned unchanged.  non-trivial = at least one lambda_i > 0.")
-  ctx.trusted = ["Coq 8.16.1 kernel + vm_compute", "hand-written model Model/ITML.v tied by the binary64 re-run",
+  ctx.trusted = ["translator tools/translate_itml.py + tools/pynum.py / Base/NPNum.v (update blocks, gamma_proj, stopping test; loop headers hand-written in Proofs/C11Src.v), text pins (public fit wrappers)", "Coq 8.16.1 kernel + vm_compute", "hand-written model Model/ITML.v tied by the binary64 re-run",
                  "solver locals read with sys.setprofile (no source change)",
                  "KKT => unique optimum of the LogDet problem (strict convexity) is not mechanised"]
   ok = ctx.build_property(gen_needed=['Src_itml'])
